@@ -11,9 +11,9 @@ layerb_ok=1
 cp "$VERIF/overlay/zz_verif_opaque.go" "$B/ov/" || layerb_ok=0
 echo "{\"Replace\": {\"$REPO/ssa/zz_verif_opaque.go\": \"$B/ov/zz_verif_opaque.go\"}}" > "$B/overlay.json"
 if [ $layerb_ok = 1 ] && [ -x "$GO123/go" ]; then
-  ( cd "$REPO" && GOFLAGS=-mod=mod GOPROXY=off GOTOOLCHAIN=local GOWORK=off "$LLGO_BUILD_GO" build -tags llvm14,verif,dev -overlay "$B/overlay.json" -o "$B/llgo" ./cmd/llgo ) >"$B/build.log" 2>&1 || { echo "vcheck: building llgo from the working tree failed (infrastructure):" >&2; tail -20 "$B/build.log" >&2; return 1; }
-  "$VERIF/toolchain/mkshim.sh" "$B/shim" >/dev/null || return 1
-  /usr/lib/llvm-14/bin/clang -O1 -shared -fPIC -Wno-pointer-bool-conversion -o "$B/libdetsched.so" "$VERIF/toolchain/libdetsched.c" -ldl -lpthread || return 1
-  export VERIF_B_LLGO=$B/llgo VERIF_B_SHIM=$B/shim VERIF_B_LIB=$B/libdetsched.so VERIF_B_TMP=$B/tmp VERIF_B_GO123=$GO123 VERIF_B_REPO=$REPO VERIF_B_CACHE=$B/cache
+  ( cd "$REPO" && GOFLAGS=-mod=mod GOPROXY=off GOTOOLCHAIN=local GOWORK=off "$LLGO_BUILD_GO" build -tags llvm14,verif,dev -overlay "$B/overlay.json" -o "$B/llgo" ./cmd/llgo ) >"$B/build.log" 2>&1 || { echo "vcheck: note: llgo could not be built from the working tree here; layer B (compiled programs) is skipped:" >&2; tail -5 "$B/build.log" >&2; layerb_ok=0; }
+  [ $layerb_ok = 1 ] && { "$VERIF/toolchain/mkshim.sh" "$B/shim" >/dev/null || layerb_ok=0; }
+  [ $layerb_ok = 1 ] && { /usr/lib/llvm-14/bin/clang -O1 -shared -fPIC -Wno-pointer-bool-conversion -o "$B/libdetsched.so" "$VERIF/toolchain/libdetsched.c" -ldl -lpthread || layerb_ok=0; }
+  [ $layerb_ok = 1 ] && export VERIF_B_LLGO=$B/llgo VERIF_B_SHIM=$B/shim VERIF_B_LIB=$B/libdetsched.so VERIF_B_TMP=$B/tmp VERIF_B_GO123=$GO123 VERIF_B_REPO=$REPO VERIF_B_CACHE=$B/cache
   export VERIF_B_GOCACHE=$("$GO123/go" env GOCACHE) VERIF_B_GOMODCACHE=$("$GO123/go" env GOMODCACHE)
 fi
